@@ -152,7 +152,7 @@ def run_tracker(prop, ev):
 
 def run_sequences(prop, ev, N=5):
     """parser::sequence_parser::split_into_sequences from source (mtsym/seqcheck.py)"""
-    results = e2rules._run("seqcheck", "run", {"N": N}) + e2rules._run("seqcheck", "run_repetitive", {"N": N})
+    results = e2rules._run("seqcheck", "run", {"N": N}) + e2rules._run("seqcheck", "run_repetitive", {"N": min(N, 7)})
     ev.assumptions.append("split_into_sequences is executed from source from the statement after `all_fields.sort_by_key(..)`; contract "
                           "for the seven lines before it: flattening the FieldMap and sorting by stamp yields the occurrences in stamp order "
                           "(stamps distinct, as parse_block4_fields produces them); tags are symbolic strings over the tag literals of the "
@@ -163,7 +163,7 @@ def run_sequences(prop, ev, N=5):
                           "special cases in the splitter)")
     ev.assumptions.append("parse_repetitive_sequence is executed from source under the same flatten-and-sort contract (markers 21, 20, 23; tags "
                           "over a 12-word vocabulary): every occurrence from the first marker on is in exactly one item, earlier ones in none, one "
-                          "item per marker occurrence; map clone / clear / is_empty on the record list")
+                          "item per marker occurrence, at most 7 occurrences (N = 10 is not answered in 120 s); map clone / clear / is_empty on the record list")
     ev.functions.update(["parser::sequence_parser::{split_into_sequences,parse_repetitive_sequence,is_sequence_b_marker}"])
     ev.bounds.append("split_into_sequences: %d field occurrences, 5 configurations, tag vocabulary of about 30 words" % N)
     ev.outside.append("FieldMaps with equal stamps (HashMap iteration order would then matter); more than %d occurrences; "
